@@ -86,7 +86,7 @@ fn method_for(mask: usize, piece: usize) -> M {
 }
 
 fn drain_for(mask: usize, piece: usize) -> D {
-    DRAINS[(mask + piece * 5) % DRAINS.len()]
+    ALL_DRAINS[(mask + piece * 7) % ALL_DRAINS.len()]
 }
 
 struct Family {
@@ -143,7 +143,7 @@ pub fn boundary_family(ctx: &Ctx, rep: &mut Report, focus: Focus, unit: &mut usi
                             }
                             bounds.push(n);
                             for mask in 0..masks {
-                                let with_drains = matches!(focus, Focus::Drain | Focus::Output) && mask < 3;
+                                let with_drains = matches!(focus, Focus::Drain | Focus::Output | Focus::RoundTrip) && mask < 3;
                                 let pieces: Vec<Piece> = bounds
                                     .windows(2)
                                     .enumerate()
